@@ -5,9 +5,9 @@
 (* TLC integers are 32 bit.  The properties of manif talk about errors of  *)
 (* 1e-16 relative on IEEE binary64 values, so the specification needs its  *)
 (* own numbers.  A Fix value is a tuple  <<sign, l1, ..., ln>>  with       *)
-(* sign \in {-1,0,1}, limbs l_i \in 0..B-1 (little endian, no trailing     *)
+(* sign \in {-1,0,1}, limbs l_i \in 0..LB-1 (little endian, no trailing     *)
 (* zero limb, zero is <<0>>).  It denotes                                  *)
-(*        sign * (SUM_i l_i * B^(i-1)) * 2^(-F)         (B = 2^15, F=195)  *)
+(*        sign * (SUM_i l_i * LB^(i-1)) * 2^(-F)         (LB = 2^15, F=195)  *)
 (* so every IEEE double of magnitude >= 2^-195 is represented exactly and  *)
 (* the integer part is unbounded.  Products and quotients truncate toward  *)
 (* zero at 2^-195 (about 2e-59).  Because the representation is canonical, *)
@@ -20,9 +20,9 @@
 (***************************************************************************)
 EXTENDS Integers, Sequences
 
-B  == 32768          \* limb base 2^15 (limb products fit in 31 bits)
-FL == 13             \* fractional limbs
-F  == 195            \* fractional bits = 15 * FL
+LB  == 32768          \* limb base 2^15 (limb products fit in 31 bits)
+FLimbs == 13             \* fractional limbs
+F  == 195            \* fractional bits = 15 * FLimbs
 
 -----------------------------------------------------------------------------
 (* Naturals as little-endian limb sequences, canonical (no trailing zeros) *)
@@ -32,7 +32,7 @@ NStrip(s) == IF Len(s) = 0 THEN s
              ELSE IF s[Len(s)] = 0 THEN NStrip(SubSeq(s, 1, Len(s) - 1)) ELSE s
 
 NFromInt(x) ==   \* 0 <= x < 2^31
-  NStrip(<< x % B, (x \div B) % B, x \div (B * B) >>)
+  NStrip(<< x % LB, (x \div LB) % LB, x \div (LB * LB) >>)
 
 RECURSIVE NAddC(_,_,_,_)
 NAddC(a, b, i, c) ==
@@ -40,7 +40,7 @@ NAddC(a, b, i, c) ==
   ELSE LET x == IF i <= Len(a) THEN a[i] ELSE 0
            y == IF i <= Len(b) THEN b[i] ELSE 0
            v == x + y + c
-       IN <<v % B>> \o NAddC(a, b, i + 1, v \div B)
+       IN <<v % LB>> \o NAddC(a, b, i + 1, v \div LB)
 NAdd(a, b) == NAddC(a, b, 1, 0)
 
 RECURSIVE NSubC(_,_,_,_)      \* requires a >= b
@@ -48,7 +48,7 @@ NSubC(a, b, i, c) ==
   IF i > Len(a) THEN <<>>
   ELSE LET y == IF i <= Len(b) THEN b[i] ELSE 0
            v == a[i] - y - c
-       IN IF v < 0 THEN <<v + B>> \o NSubC(a, b, i + 1, 1)
+       IN IF v < 0 THEN <<v + LB>> \o NSubC(a, b, i + 1, 1)
                    ELSE <<v>> \o NSubC(a, b, i + 1, 0)
 NSub(a, b) == NStrip(NSubC(a, b, 1, 0))
 
@@ -62,7 +62,7 @@ NCmp(a, b) == IF Len(a) < Len(b) THEN -1
 RECURSIVE NMulRow(_,_,_,_)
 NMulRow(a, d, i, c) ==
   IF i > Len(a) THEN (IF c = 0 THEN <<>> ELSE <<c>>)
-  ELSE LET v == a[i] * d + c IN <<v % B>> \o NMulRow(a, d, i + 1, v \div B)
+  ELSE LET v == a[i] * d + c IN <<v % LB>> \o NMulRow(a, d, i + 1, v \div LB)
 
 NZeros(n) == [k \in 1..n |-> 0]
 RECURSIVE NMulAcc(_,_,_,_)
@@ -71,11 +71,11 @@ NMulAcc(a, b, j, acc) ==
   ELSE NMulAcc(a, b, j + 1, NAdd(acc, NZeros(j - 1) \o NMulRow(a, b[j], 1, 0)))
 NMul(a, b) == IF Len(a) = 0 \/ Len(b) = 0 THEN <<>> ELSE NStrip(NMulAcc(a, b, 1, <<>>))
 
-\* division by a small number 0 < d < B, most significant limb first
+\* division by a small number 0 < d < LB, most significant limb first
 RECURSIVE NDivSmallAt(_,_,_,_)
 NDivSmallAt(a, d, i, r) ==
   IF i = 0 THEN <<>>
-  ELSE LET v == r * B + a[i] IN NDivSmallAt(a, d, i - 1, v % d) \o <<v \div d>>
+  ELSE LET v == r * LB + a[i] IN NDivSmallAt(a, d, i - 1, v % d) \o <<v \div d>>
 NDivSmall(a, d) == NStrip(NDivSmallAt(a, d, Len(a), 0))
 
 Pow2Small(r) == CASE r = 0 -> 1 [] r = 1 -> 2 [] r = 2 -> 4 [] r = 3 -> 8 [] r = 4 -> 16
@@ -118,9 +118,9 @@ Mag(a) == Tail(a)
 FZero == <<0>>
 FInt(n) ==      \* the integer n, |n| < 2^31
   IF n = 0 THEN <<0>>
-  ELSE IF n > 0 THEN Mk(1, NZeros(FL) \o NFromInt(n))
-  ELSE IF n < -2147483647 THEN Mk(-1, NZeros(FL) \o <<0, 0, 2>>)
-  ELSE Mk(-1, NZeros(FL) \o NFromInt(-n))
+  ELSE IF n > 0 THEN Mk(1, NZeros(FLimbs) \o NFromInt(n))
+  ELSE IF n < -2147483647 THEN Mk(-1, NZeros(FLimbs) \o <<0, 0, 2>>)
+  ELSE Mk(-1, NZeros(FLimbs) \o NFromInt(-n))
 FOne == FInt(1)
 
 FNeg(a) == IF Sgn(a) = 0 THEN a ELSE <<-Sgn(a)>> \o Mag(a)
@@ -149,16 +149,16 @@ FMin(a, b) == IF FLe(a, b) THEN a ELSE b
 FMul(a, b) ==
   IF Sgn(a) = 0 \/ Sgn(b) = 0 THEN <<0>>
   ELSE LET p == NMul(Mag(a), Mag(b))
-       IN Mk(Sgn(a) * Sgn(b), IF Len(p) <= FL THEN <<>> ELSE SubSeq(p, FL + 1, Len(p)))
+       IN Mk(Sgn(a) * Sgn(b), IF Len(p) <= FLimbs THEN <<>> ELSE SubSeq(p, FLimbs + 1, Len(p)))
 
 \* quotient, truncated toward zero at 2^-F  (b # 0)
 FDiv(a, b) ==
   IF Sgn(a) = 0 THEN <<0>>
-  ELSE Mk(Sgn(a) * Sgn(b), NDiv(NZeros(FL) \o Mag(a), Mag(b)))
+  ELSE Mk(Sgn(a) * Sgn(b), NDiv(NZeros(FLimbs) \o Mag(a), Mag(b)))
 
-\* division by a small positive integer 0 < k < B
+\* division by a small positive integer 0 < k < LB
 FDivInt(a, k) == IF Sgn(a) = 0 THEN a ELSE Mk(Sgn(a), NDivSmall(Mag(a), k))
-\* multiplication by an integer |k| < B
+\* multiplication by an integer |k| < LB
 FMulInt(a, k) ==
   IF Sgn(a) = 0 \/ k = 0 THEN <<0>>
   ELSE Mk(IF k > 0 THEN Sgn(a) ELSE -Sgn(a), NMulRow(Mag(a), IF k > 0 THEN k ELSE -k, 1, 0))
@@ -167,7 +167,7 @@ FMulInt(a, k) ==
 FPow2(e) == IF e < -F THEN <<0>> ELSE Mk(1, NShl(<<1>>, F + e))
 
 \* floor of the square root of a >= 0, truncated at 2^-F
-FSqrt(a) == IF Sgn(a) <= 0 THEN <<0>> ELSE Mk(1, NSqrt(NZeros(FL) \o Mag(a)))
+FSqrt(a) == IF Sgn(a) <= 0 THEN <<0>> ELSE Mk(1, NSqrt(NZeros(FLimbs) \o Mag(a)))
 
 \* exact value of the IEEE-754 binary64 number whose bit pattern is given as
 \* two signed 32-bit halves (hi = sign, exponent, top 20 mantissa bits).
@@ -192,7 +192,7 @@ FRatioMilli(a, b) ==
   ELSE LET q == NDiv(NMulRow(Mag(a), 1000, 1, 0), Mag(b))
        IN IF Len(q) > 2 \/ (Len(q) = 2 /\ q[2] >= 30000) THEN 2000000000
           ELSE IF Len(q) = 0 THEN 0
-          ELSE IF Len(q) = 1 THEN q[1] ELSE q[1] + B * q[2]
+          ELSE IF Len(q) = 1 THEN q[1] ELSE q[1] + LB * q[2]
 
 \* floor(log2 |a|) (reporting / classification); -100000 for zero
 FLog2(a) ==
